@@ -3,12 +3,12 @@
 EXTENDS Program, Json, IOUtils, TraceCommon
 Progs == ndJsonDeserialize(IOEnv.VERIF_PROGS)
 Rec   == ndJsonDeserialize(IOEnv.VERIF_TRACE)
-VARIABLES prog, codes, ctr, last, hist, l
+VARIABLES prog, codes, ctr, last, blk, hist, l
 INSTANCE Multitest WITH Programs <- Progs
-tvars == <<prog, codes, ctr, last, hist, l>>
+tvars == <<prog, codes, ctr, last, blk, hist, l>>
 E == Rec[l]
 ProgIx(id) == CHOOSE i \in 1..Len(Progs) : Progs[i].id = id
-TInit == l = 1 /\ prog = 1 /\ codes = 0 /\ ctr = NoCtr /\ last = NoRes /\ hist = <<>> /\ TLCSet(1, 1)
+TInit == l = 1 /\ prog = 1 /\ codes = 0 /\ ctr = NoCtr /\ last = NoRes /\ blk = 0 /\ hist = <<>> /\ TLCSet(1, 1)
 
 PM(o) == CHOOSE pm \in MethodsOfKind(o.op) : pm.part = o.part /\ pm.m.name = o.method
 (* the specification's action for the logged operation (a new history starts from the empty chain) *)
@@ -19,6 +19,8 @@ Apply(o) ==
       [] o.op = "query"       -> Query(PM(o), o.val)
       [] o.op = "sudo"        -> Sudo(PM(o), o.val)
       [] o.op = "migrate"     -> Migrate(o.val, o.sender)
+      [] o.op \in {"update_block", "set_block"} -> MoveBlock(o.op, o.val)
+      [] o.op = "code_info"   -> CodeInfo(o.val)
 
 ViewOf(c) == [exists |-> c.exists, code |-> IF c.exists THEN ToString(c.code) ELSE "", label |-> c.label, admin |-> c.admin,
               mark |-> c.mark, count |-> IF c.exists THEN ToString(c.count) ELSE "", bal |-> IF c.exists THEN ToString(c.bal) ELSE ""]
@@ -31,7 +33,8 @@ ViewMatches(v, c) ==
 MethodOfOp(o) == IF o.op = "instantiate" THEN InstM ELSE IF o.op = "migrate" THEN MigM ELSE PM(o).m
 OkAttrs(m) == << <<"h", m.name>>, <<"code", ToString(m.code)>> >>
 ResMatches(r, o) ==      \* what the specification says the caller gets
-    IF o.op = "store" THEN r.ok
+    IF o.op \in {"store", "update_block", "set_block"} THEN r.ok
+    ELSE IF o.op = "code_info" THEN r.ok /\ r.value.code_id = ToString(o.val) /\ r.value.creator # "" /\ r.value.checksum # ""
     ELSE LET m == MethodOfOp(o) IN
          IF m.outcome = "ok"
          THEN /\ r.ok
@@ -48,7 +51,7 @@ TrMtOp ==
             /\ prog' = ProgIx(E.prog)
             /\ LET p0 == ProgIx(E.prog) IN
                /\ Chk("BIND", "history_starts_with_store", l, E.op.op = "store")
-               /\ codes' = 1 /\ ctr' = NoCtr /\ last' = NoRes /\ hist' = <<E.op>>
+               /\ codes' = 1 /\ ctr' = NoCtr /\ last' = NoRes /\ blk' = 0 /\ hist' = <<E.op>>
        ELSE Apply(E.op)
     /\ Chk("C12", "generated_code_does_not_panic", l, E.panic = "")
     /\ IF E.panic # "" THEN TRUE       \* nothing else was observed of this operation (the history ends here)
@@ -57,6 +60,9 @@ TrMtOp ==
        /\ Chk("C12", "proxy_call_and_raw_json_have_the_same_result", l, E.proxy.res = E.raw.res)
        /\ Chk("C12", "handler_error_surfaces_as_the_contracts_error_value", l, ResMatches(E.proxy.res, E.op))
        /\ Chk("C12", "chain_state_is_what_the_handlers_left", l, ViewMatches(E.proxy.view, ctr') /\ ViewMatches(E.raw.view, ctr'))
+       \* the harness's own helpers (block information, code information): the chain stands where the history moved it
+       /\ Chk("C12", "block_helpers_move_the_chain_as_the_underlying_chain_is_moved", l,
+              E.proxy.view.height = ToString(12345 + blk') /\ E.raw.view.height = ToString(12345 + blk'))
     /\ l' = l + 1 /\ TLCSet(1, l + 1)
 TSpec == TInit /\ [][TrMtOp]_tvars
 TraceAccepted ==
